@@ -3,6 +3,7 @@ import HtpModel.Lemmas.Conn
 import HtpModel.Lemmas.BufInv
 import HtpModel.Lemmas.OutInv
 import HtpModel.Lemmas.OwedOut
+import HtpModel.Pinned.Eq
 
 namespace Htp.C10
 open Htp.Conn Htp.Gen
@@ -146,5 +147,9 @@ theorem C10_req_call_buffer_bounded_inv (cfg : Cfg) (d : Bytes) (c : Conn) (hs :
     (hcl : ClAtDecision cfg (reqWakeOther (reqStoreChunk (some d) d.length c))) :
     inBufLen (reqData cfg (some d) d.length c).1 ≤ cfg.fieldLimitHard ∧ OwedPos (reqData cfg (some d) d.length c).1 :=
   reqData_invariant cfg d c hs hb h0 hcl
+
+/-- **C10 (the constants are the reviewed ones)**: every constant the translator reads from the current source - among them the limits (field limits, repetition and folding caps, list sizes) -
+    equals its reviewed snapshot (lean/HtpModel/Pinned); the model follows a regenerated constant, so this is what notices a changed one -/
+theorem C10_constants_pinned : Htp.Pinned.ConstantsPinned := Htp.Pinned.constants_pinned
 
 end Htp.C10
